@@ -12,6 +12,14 @@
 
 extern "C" {
 // sanitizer defaults: a report ends the worker with a recognisable status
+// Every wrapped call is entered with whatever errno the caller's last libc call left behind: half of the calls of a plan get a stale
+// value (from its own random stream, so that the generators' plans stay what they were), the rest 0.
+static void assign_entry_errnos(Plan &p) {
+    Rng r(p.seed * 2654435761ULL + 97);
+    static const int vals[] = {2, 34, 4, 11, 22, 12, 25, 3, 17, 13, 9, 28, 110, 75};   // ENOENT ERANGE EINTR EAGAIN EINVAL ENOMEM ENOTTY ESRCH EEXIST EACCES EBADF ENOSPC ETIMEDOUT EOVERFLOW
+    auto one = [&](ExecOp &e) { e.entry_errno = r.chance(1, 2) ? vals[r.below(sizeof vals / sizeof *vals)] : 0; };
+    for (auto &o : p.ops) { if (o.op == "Exec" || o.op == "ForkExec") one(o.ex); for (auto &t : o.threads) for (auto &e : t) one(e); }
+}
 __attribute__((used, visibility("default"))) const char *__asan_default_options() { return "exitcode=77:color=never:halt_on_error=0:detect_leaks=0:abort_on_error=0:allocator_may_return_null=1:detect_stack_use_after_return=0:handle_segv=1"; }
 __attribute__((used, visibility("default"))) const char *__ubsan_default_options() { return "halt_on_error=0:exitcode=77:print_stacktrace=1:color=never"; }
 __attribute__((used, visibility("default"))) const char *__tsan_default_options() { return "exitcode=0:color=never:halt_on_error=0:report_signal_unsafe=0:suppress_equal_stacks=0:suppress_equal_addresses=0:history_size=4:second_deadlock_stack=1"; }
@@ -86,7 +94,7 @@ int main(int argc, char **argv) {
             { char b[64]; int n = snprintf(b, sizeof b, "{\"start\":%llu}", s); out_line(std::string(b, (size_t)n)); }
             { char b[64]; int n = snprintf(b, sizeof b, "=== seed %llu\n", s); raw_syscall6(1, 2, (long)b, n, 0, 0, 0); }
             alarm(120);
-            Plan p = c->gen(s, tier);
+            Plan p = c->gen(s, tier); assign_entry_errnos(p);
             J line = run_one(*c, p, false);
             alarm(0);
             if (line.getb("violated") || getenv("SIM_PLANS")) {
@@ -103,7 +111,7 @@ int main(int argc, char **argv) {
     if (cmd == "gen" && argc >= 4) {
         const Check *c = find_check(argv[2]);
         if (!c) return 2;
-        Plan p = c->gen(strtoull(argv[3], 0, 10), argc > 4 ? argv[4] : "quick");
+        Plan p = c->gen(strtoull(argv[3], 0, 10), argc > 4 ? argv[4] : "quick"); assign_entry_errnos(p);
         out_line(p.to_json().dump());
         return 0;
     }
